@@ -179,6 +179,26 @@ where
     }
 }
 
+/// Propagates `carry` across `bits` all-zero low-order bits.
+///
+/// Used when a right shift (or a negative normalization offset) moves the input
+/// entirely below the last limb of the output: the carry of the discarded limbs
+/// then sits `bits` bits below that limb and has to be brought up to its scale
+/// before it is added. `zero` is a scratch limb of the same length as `carry`.
+pub(crate) fn vec_znx_carry_skip_bits<ZNXARI>(bits: usize, zero: &mut [i64], carry: &mut [i64])
+where
+    ZNXARI: ZnxZero + ZnxNormalizeMiddleStepCarryOnly,
+{
+    ZNXARI::znx_zero(zero);
+    // A 64-bit carry is exhausted after 64 bits, no need to go further.
+    let mut bits: usize = bits.min(2 * i64::BITS as usize);
+    while bits != 0 {
+        let take: usize = bits.min(32);
+        ZNXARI::znx_normalize_middle_step_carry_only(take, 0, zero, carry);
+        bits -= take;
+    }
+}
+
 pub fn vec_znx_rsh_tmp_bytes(n: usize) -> usize {
     2 * n * size_of::<i64>()
 }
@@ -214,9 +234,12 @@ where
 
     let lsh: usize = (base2k - k_rem) % base2k;
 
+    // Number of limbs of res that are shifted out entirely.
+    let out: usize = steps.min(size);
+
     // All limbs of a that would fall outside of the limbs of res are discarded,
     // but the carry still need to be computed.
-    for j in 0..steps {
+    for j in 0..out {
         if j == 0 {
             ZNXARI::znx_normalize_first_step_carry_only(base2k, lsh, res.at(res_col, size - j - 1), carry);
         } else {
@@ -224,20 +247,25 @@ where
         }
     }
 
+    // If the shift exceeds the precision of res, the carry sits below its last limb.
+    if steps > size {
+        vec_znx_carry_skip_bits::<ZNXARI>((steps - size).saturating_mul(base2k), tmp, carry);
+    }
+
     // Continues with shifted normalization
-    for j in 0..size - steps {
-        ZNXARI::znx_copy(tmp, res.at(res_col, size - steps - j - 1));
+    for j in 0..size - out {
+        ZNXARI::znx_copy(tmp, res.at(res_col, size - out - j - 1));
         ZNXARI::znx_normalize_middle_step_assign(base2k, lsh, tmp, carry);
         ZNXARI::znx_copy(res.at_mut(res_col, size - j - 1), tmp);
     }
 
     // Propagates carry on the rest of the limbs of res
-    for j in 0..steps {
+    for j in 0..out {
         ZNXARI::znx_zero(res.at_mut(res_col, j));
         if j == 0 {
-            ZNXARI::znx_normalize_final_step_assign(base2k, lsh, res.at_mut(res_col, steps - j - 1), carry);
+            ZNXARI::znx_normalize_final_step_assign(base2k, lsh, res.at_mut(res_col, out - j - 1), carry);
         } else {
-            ZNXARI::znx_normalize_middle_step_assign(base2k, lsh, res.at_mut(res_col, steps - j - 1), carry);
+            ZNXARI::znx_normalize_middle_step_assign(base2k, lsh, res.at_mut(res_col, out - j - 1), carry);
         }
     }
 }
@@ -298,6 +326,13 @@ pub fn vec_znx_rsh<R, A, ZNXARI, const OVERWRITE: bool>(
 
     if a_out_range == 0 {
         ZNXARI::znx_zero(carry);
+    }
+
+    // If the shift exceeds the precision of res, the carry sits below its last limb.
+    if steps > res_size {
+        let n: usize = res.n();
+        let (carry, zero) = carry.split_at_mut(n);
+        vec_znx_carry_skip_bits::<ZNXARI>((steps - res_size).saturating_mul(base2k), &mut zero[..n], carry);
     }
 
     if OVERWRITE {
@@ -384,6 +419,13 @@ where
 
     if a_out_range == 0 {
         ZNXARI::znx_zero(carry);
+    }
+
+    // If the shift exceeds the precision of res, the carry sits below its last limb.
+    if steps > res_size {
+        let n: usize = res.n();
+        let (carry, zero) = carry.split_at_mut(n);
+        vec_znx_carry_skip_bits::<ZNXARI>((steps - res_size).saturating_mul(base2k), &mut zero[..n], carry);
     }
 
     let mid_range: usize = res_start.saturating_sub(res_end);
